@@ -516,7 +516,7 @@ func (r *raft) send(m *pb.Message) {
 		m.From = new(r.id)
 	}
 	if m.GetType() == pb.MsgVote || m.GetType() == pb.MsgVoteResp || m.GetType() == pb.MsgPreVote || m.GetType() == pb.MsgPreVoteResp {
-		if m.GetTerm() == 0 {
+		if m.GetTerm() == 0 && !(m.GetType() == pb.MsgPreVoteResp && m.GetReject()) {
 			// All {pre-,}campaign messages need to have the term set when
 			// sending.
 			// - MsgVote: m.Term is the term the node is campaigning for,
